@@ -229,9 +229,46 @@ def rule_opus_selfcheck(prog, fixture=False):
     return r
 
 
+# ---------------------------------------------------------------- R-C13-5
+def rule_sides_from_hdfs_only(prog, fixture=False):
+    r = RuleResult("R-C13-5", "bit 2 of byte 6 of sector 1 means 'two-sided' only on HDFS discs (elsewhere it belongs to "
+                   "the sector count of a Watford large disc): the function geometry probing asks answers 'not "
+                   "single-sided' only where the format is known to be HDFS", floor=0 if fixture else 1)
+    hd = None
+    for q, e in prog.enums.items():
+        if notpl(q).endswith("Format"):
+            for c in e.get("consts", []):
+                if c["n"] == "HDFS":
+                    hd = c["v"]
+    for fn in prog.fnby("single_sided_filesystem", required=not fixture):
+        fp = [p_ for p_ in fn.params if "Format" in (p_.get("t") or "")]
+        if hd is None or not fp:
+            r.undecided.append("single_sided_filesystem: format parameter or the HDFS enumerator not found")
+            continue
+        g = Guards(fn)
+        k = 0
+        for n in fn.walk():
+            if n.get("k") != "ReturnStmt" or not n.get("c") or folded(n["c"][0]) != 0:
+                continue
+            k += 1
+            ok = False
+            for l, rel, rr in (g.cmps(n) or []):
+                ls = strip_all(l)
+                if rel == "==" and ls is not None and ls.get("k") == "DeclRefExpr" and ls.get("d") == fp[0]["d"] and folded(rr) == hd:
+                    ok = True
+            r.add("%s::%s::two-sided#%d" % (fn.relfile(), fn.qn, k), fn.loc(n), ok, "only for HDFS" if ok else
+                  "`return false` (two-sided) can be reached for a format other than HDFS: on a Watford large disc the "
+                  "same bit is part of the sector count, so geometry selection starts to depend on what is stored "
+                  "where the other side's catalogue would be")
+        if k == 0:
+            r.add("%s::%s::never-two-sided" % (fn.relfile(), fn.qn), "%s:%d" % (fn.relfile(), fn.line), True, "always single-sided")
+    return r
+
+
 def run(ctx):
     prog = ctx.prog("dfs", "N")
-    return [rule_watford_guard(prog), rule_decision_table(prog), rule_probe_reads(prog), rule_opus_selfcheck(prog)]
+    return [rule_watford_guard(prog), rule_decision_table(prog), rule_probe_reads(prog), rule_opus_selfcheck(prog),
+            rule_sides_from_hdfs_only(prog)]
 
 
 SELFTESTS = [
